@@ -761,16 +761,16 @@ def shard_priv_perm(shard):
     return part
 
 
-_ENTRIES = []
+_ENTRIES = {"all": [], "six": []}
 
 
 def shard_priv_learned(shard):
-    """learned entries (pattern, list of shadings) x every text."""
-    lo, hi, tmax = shard
+    """learned entries (pattern, list of shadings) x every text of the lengths nlo..nhi."""
+    which, lo, hi, nlo, nhi = shard
     part = Partial()
-    for p, hs in _ENTRIES[lo:hi]:
+    for p, hs in _ENTRIES[which][lo:hi]:
         Rs = sorted(hs, key=sorted)
-        for n in range(0, tmax + 1):
+        for n in range(nlo, nhi + 1):
             for t in R.perms(n):
                 exp = priv_perm(part, t, p, Rs)
                 part.add(1, 1 if (exp and any(Rs) and n > len(p)) else 0)
@@ -1004,7 +1004,7 @@ def auto_plan(quick):
 
 def run(ctx, only=None):
     import os
-    global _CLASS_CASES, _ENTRIES
+    global _CLASS_CASES
 
     def want(name):
         return only is None or name in only
@@ -1029,6 +1029,7 @@ def run(ctx, only=None):
         "is reported (sub-check auto_no_answer)",
     ]
     entries = set()
+    entries6 = set()   # those learned in subsets3 / classes: also run against the texts of length 6
     jobs = []          # (family, function name, shard); one pool runs them all (phase A)
 
     if want("auto"):
@@ -1078,7 +1079,6 @@ def run(ctx, only=None):
             % (sorted(NAMED) + ["shipped predicate " + x for x in LIB_NAMED], "(2,5),(3,5),(4,5),(3,6),(4,6)" if quick else "every m<=min(4,n), n<=6",
                len(_CLASS_CASES), nnamed))
     tl = (0, 1, 2, 3, 4, 5)
-    tmax = 5 if quick else 6
     if want("private"):
         jobs += [("private", "shard_priv_maximal", (n, lo, hi)) for n in range(0, 6 if quick else 7)
                  for lo, hi in chunks(len(R.perms(n)), 30)]
@@ -1118,6 +1118,8 @@ def run(ctx, only=None):
             auto_res.append([sh[0], sh[1], pl])
         elif fam != "private" and pl:
             entries |= pl
+            if fam in ("subsets3", "classes"):
+                entries6 |= pl
 
     def section(name, **info):
         ctx.section(name, cpu_s=round(ctx.counters.get("cpu_ms_" + name, 0) / 1000.0, 1),
@@ -1135,17 +1137,24 @@ def run(ctx, only=None):
         section("auto", answers=answers)
     if want("private"):
         # phase B: the learned entries of this run (pattern with all its shadings) x texts
-        _ENTRIES = sorted(entries, key=lambda e: (len(e[0]), e[0], sorted(map(sorted, e[1]))))
-        jobs = [("private", "shard_priv_learned", (lo, hi, tmax))
-                for lo, hi in chunks(len(_ENTRIES), max(1, len(_ENTRIES) // 64))]
+        def ekey(e):
+            return (len(e[0]), e[0], sorted(map(sorted, e[1])))
+        _ENTRIES["all"] = sorted(entries, key=ekey)
+        _ENTRIES["six"] = [] if quick else sorted(entries6, key=ekey)
+        jobs = [("private", "shard_priv_learned", ("all", lo, hi, 0, 5))
+                for lo, hi in chunks(len(entries), max(1, len(entries) // 64))]
+        jobs += [("private", "shard_priv_learned", ("six", lo, hi, 6, 6))
+                 for lo, hi in chunks(len(_ENTRIES["six"]), max(1, len(_ENTRIES["six"]) // 64))]
         take_violations(ctx, jobs, ctx.pmap(shard_any, jobs))
         ctx.bounds["private"] = {
             "maximal_mesh_pattern_of_occurrence": "every index subset of every text of length <= %d" % (5 if quick else 6),
             "perm_contains_cl_patt(s)_many_shadings": (
                 "every mesh pattern of length <= 2 (all shadings) x texts of length <= 5; length 3 with "
                 "<=%d or >=%d cells x texts of length 3..5; every learned entry (pattern with all its "
-                "shadings) of this run (%d entries) x texts of length <= %d"
-                % (1 if quick else 2, 15 if quick else 14, len(_ENTRIES), tmax)),
+                "shadings) of this run (%d entries) x texts of length <= 5%s"
+                % (1 if quick else 2, 15 if quick else 14, len(entries),
+                   "" if quick else "; the %d entries learned in subsets3/classes x texts of length 6"
+                   % len(entries6))),
             "mesh_contains_cl_patt_many_shadings(+_with_positions)": (
                 "(perm,S) x (patt,R): all shadings for |patt| <= |perm| <= 2"
                 + (" except |patt|=|perm|=2 where R has <=1 or >=8 cells; |perm|=3 with <=1/>=15 cells x "
@@ -1153,7 +1162,7 @@ def run(ctx, only=None):
                    if quick else "; |perm|=3 with <=2/>=14 cells x |patt|<=2 (|patt|=2: <=2/>=7 cells)")
                 + "; two shadings: all pairs for |patt|<=1, |perm|<=1 and |perm|=2 with <=1/>=8 cells"),
         }
-        section("private", learned_entries=len(_ENTRIES))
+        section("private", learned_entries=len(entries))
     ctx.bounds["clean_up"] = ("run_clean_up with limit_monitors in {0, k0, k0+1} on every output with <= %d "
                               "initial monitors and <= %d learned patterns" % (MON_CAP, PATT_CAP))
 
